@@ -245,7 +245,7 @@ var fixedStructs = []struct {
 	rt  reflect.Type
 	reg bool
 }{{reflect.TypeOf(Empty{}), true}, {reflect.TypeOf(Node{}), true}, {reflect.TypeOf(Unreg{}), false}, {reflect.TypeOf(Rec{}), true},
-	{reflect.TypeOf(Holder{}), true}, {reflect.TypeOf(Inner{}), true}, {reflect.TypeOf(Outer{}), true}, {reflect.TypeOf(KS{}), true}, {reflect.TypeOf(OnlyM{}), true}, {reflect.TypeOf(KT{}), true}, {reflect.TypeOf(KO{}), true}, {reflect.TypeOf(Emb{}), true}}
+	{reflect.TypeOf(Holder{}), true}, {reflect.TypeOf(Inner{}), true}, {reflect.TypeOf(Outer{}), true}, {reflect.TypeOf(KS{}), true}, {reflect.TypeOf(OnlyM{}), true}, {reflect.TypeOf(KT{}), true}, {reflect.TypeOf(KO{}), true}, {reflect.TypeOf(Emb{}), true}, {reflect.TypeOf(HP{}), true}}
 
 // container types registered under a name (so that they may be element types)
 var regContainers = []struct {
@@ -273,6 +273,36 @@ var namedConts = []struct {
 	{reflect.TypeOf(NAr{}), &Ty{K: "array", N: 2, E: &Ty{K: "base", B: "string"}}, true},
 	{reflect.TypeOf(USl(nil)), &Ty{K: "slice", E: &Ty{K: "base", B: "string"}}, false},
 	{reflect.TypeOf(UMp(nil)), &Ty{K: "map", Key: &Ty{K: "base", B: "string"}, E: &Ty{K: "base", B: "int"}}, false},
+}
+
+// defined pointer types (type PInt *int): a pointer type with a name.  GenericRegister strips the
+// pointers of the type it is given, so such a type cannot be registered under its own name; the
+// encoder strips the pointers too and writes the pointee.  In a typed position the decoder's unnamed
+// pointer is assignable (supported, must round-trip); directly in an interface position the name is
+// lost (finding F-C12m).  Outside Base/Universe.v: judged by the direct oracle only.
+type PInt *int
+type PNode *Node
+type PPStr **NStr
+
+var namedPtrs = []struct {
+	rt    reflect.Type
+	under *Ty
+}{
+	{reflect.TypeOf(PInt(nil)), &Ty{K: "ptr", E: &Ty{K: "base", B: "int"}}},
+	{reflect.TypeOf(PNode(nil)), &Ty{K: "ptr", E: &Ty{K: "struct", N: fixedBase + 1}}},
+	{reflect.TypeOf(PPStr(nil)), &Ty{K: "ptr", E: &Ty{K: "ptr", E: &Ty{K: "named", N: 1}}}},
+}
+
+// a registered struct with fields of defined pointer types (typed positions: supported) and interface
+// positions.  A defined pointer type behind a pointer (*PInt) or as the key / element type of a container
+// ([]PInt, map[string]PNode, []*PInt) cannot be rebuilt by the decoder at all: the encoder must refuse it
+// (fix F-C12m; malformed kind "defined-pointer-elem").
+type HP struct {
+	P  PInt
+	Q  PNode
+	S  PPStr
+	A  any
+	As []any
 }
 
 // registered container types of the extension that may be element types
@@ -305,6 +335,7 @@ func init() {
 	must(compose.RegisterSerializableType[KT]("c12_s1009"))
 	must(compose.RegisterSerializableType[KO]("c12_s1010"))
 	must(compose.RegisterSerializableType[Emb]("c12_s1011"))
+	must(compose.RegisterSerializableType[HP]("c12_s1012"))
 	must(compose.RegisterSerializableType[NLvl]("c12_n10"))
 	must(compose.RegisterSerializableType[NTk]("c12_n11"))
 	must(compose.RegisterSerializableType[alt.NInt]("c12_n12"))
@@ -454,6 +485,10 @@ func (w *world) goType(t *Ty) (reflect.Type, error) {
 		if t.N >= 0 && t.N < len(namedConts) {
 			return namedConts[t.N].rt, nil
 		}
+	case "nptr":
+		if t.N >= 0 && t.N < len(namedPtrs) {
+			return namedPtrs[t.N].rt, nil
+		}
 	}
 	return nil, fmt.Errorf("bad type descriptor %+v", *t)
 }
@@ -465,6 +500,14 @@ func (w *world) tyOf(rt reflect.Type) (*Ty, bool) {
 	}
 	switch rt.Kind() {
 	case reflect.Ptr:
+		if rt.Name() != "" {
+			for i, np := range namedPtrs {
+				if np.rt == rt {
+					return &Ty{K: "nptr", N: i}, true
+				}
+			}
+			return nil, false
+		}
 		e, ok := w.tyOf(rt.Elem())
 		return &Ty{K: "ptr", E: e}, ok
 	case reflect.Array:
@@ -532,6 +575,8 @@ func ncontOf(rt reflect.Type) (*Ty, bool) {
 // are judged by their declarations (caseUsesExt)
 func (t *Ty) ext() bool {
 	switch t.K {
+	case "nptr":
+		return true
 	case "ncont":
 		return namedConts[t.N].under.ext()
 	case "ptr":
@@ -640,6 +685,8 @@ func (t *Ty) String() string {
 		return fmt.Sprintf("[%d]%s", t.N, t.E.String())
 	case "ncont":
 		return fmt.Sprintf("C%d", t.N)
+	case "nptr":
+		return fmt.Sprintf("P%d", t.N)
 	}
 	return "any"
 }
@@ -675,6 +722,12 @@ func (w *world) build(t *Ty, v *V) (rv reflect.Value, err error) {
 	}
 	rv = reflect.New(rt).Elem()
 	switch t.K {
+	case "nptr":
+		uv, e := w.build(namedPtrs[t.N].under, v)
+		if e != nil {
+			return rv, e
+		}
+		rv.Set(uv.Convert(rt))
 	case "ncont":
 		uv, e := w.build(namedConts[t.N].under, v)
 		if e != nil {
@@ -931,6 +984,8 @@ func (w *world) coqVal(rv reflect.Value) (string, bool) {
 		return fmt.Sprintf("(VBase BString (LStr %s))", lib.CoqStr("<outside the universe: "+rv.Type().String()+">")), false
 	}
 	switch t.K {
+	case "nptr":
+		return fmt.Sprintf("(VBase BString (LStr %s))", lib.CoqStr("<outside the universe: "+rv.Type().String()+">")), false
 	case "ncont":
 		u := namedConts[t.N].under
 		ut, _ := w.goType(u)
@@ -1046,6 +1101,7 @@ const (
 	eqRetype          // F-C12g: an unregistered defined container type may come back as its unnamed type
 	eqPtrIface        // F-C12h: what a pointer to an interface points to is not compared
 	eqMapKey          // F-C12j: maps whose key type is not of basic kind are not compared
+	eqRetypePtr       // F-C12m: a defined pointer type may come back as its unnamed pointer type
 )
 
 func unregisteredDefinedContainer(t reflect.Type) bool {
@@ -1084,7 +1140,10 @@ func equiv(a, b reflect.Value, mode eqMode) bool {
 			b.Type().Name() == "" && a.Kind() == b.Kind() {
 			return equiv(a.Convert(b.Type()), b, mode)
 		}
-		if mode == eqRetype && a.Kind() == reflect.Ptr && b.Kind() == reflect.Ptr {
+		if mode == eqRetypePtr && a.Kind() == reflect.Ptr && a.Type().Name() != "" && b.Type() == reflect.PointerTo(a.Type().Elem()) {
+			return equiv(a.Convert(b.Type()), b, mode)
+		}
+		if mode == eqRetype && a.Kind() == reflect.Ptr && b.Kind() == reflect.Ptr && a.Type().Name() == "" {
 			if a.IsNil() || b.IsNil() {
 				return false // a nil pointer keeps its full type or fails
 			}
@@ -1200,7 +1259,7 @@ type stats struct {
 	ptrDepth, maxNest, nodes     int
 	nilPtr, innerNil, iface      bool
 	containers, structs, nilCont bool
-	arrays, defConts             bool
+	arrays, defConts, defPtrs    bool
 	keyKinds                     map[string]bool
 }
 
@@ -1210,6 +1269,10 @@ func (w *world) stat(t *Ty, v *V, depth int, st *stats) {
 		st.maxNest = depth
 	}
 	switch t.K {
+	case "nptr":
+		st.nodes--
+		st.defPtrs = true
+		w.stat(namedPtrs[t.N].under, v, depth, st)
 	case "ncont":
 		st.nodes--
 		st.defConts = true
@@ -1870,6 +1933,9 @@ func runCase(c *Case) (res lib.Result) {
 			case equiv(rv, ov, eqPtrIface):
 				res.Oracle = "the value a pointer to an interface points to came back as a generic JSON value"
 				res.Sig = "ptr-to-interface-untyped"
+			case equiv(rv, ov, eqRetypePtr):
+				res.Oracle = "value of a defined pointer type (type P *T) held in an interface came back with the unnamed pointer type"
+				res.Sig = "defined-pointer-retyped"
 			case equiv(rv, ov, eqMapKey):
 				res.Oracle = "keys of a map whose key type is an interface / pointer type (or a struct whose JSON leaves a field out) came back as generic JSON values or collapsed"
 				res.Sig = "map-key-untyped"
@@ -1926,7 +1992,7 @@ func runCase(c *Case) (res lib.Result) {
 		on   bool
 		name string
 	}{{st.nilPtr, "nilptr"}, {st.innerNil, "innernil"}, {st.iface, "iface"}, {st.containers, "container"},
-		{st.nilCont, "nilcontainer"}, {st.structs, "struct"}, {st.arrays, "array"}, {st.defConts, "definedcontainer"}} {
+		{st.nilCont, "nilcontainer"}, {st.structs, "struct"}, {st.arrays, "array"}, {st.defConts, "definedcontainer"}, {st.defPtrs, "definedpointer"}} {
 		if f.on {
 			res.Tags = append(res.Tags, "has:"+f.name)
 		}
@@ -2071,7 +2137,7 @@ func (g *gen) want(kind string, num, den int) bool {
 
 var badKinds = []string{"unregistered-named", "unregistered-named", "complex", "unregistered-container-elem",
 	"unregistered-iface-elem", "unregistered-struct", "unregistered-struct", "invalid-utf8", "invalid-utf8", "non-finite-float",
-	"unregistered-defined-container", "ptr-to-iface", "non-basic-key", "non-finite-key", "complex-key"}
+	"unregistered-defined-container", "ptr-to-iface", "non-basic-key", "non-finite-key", "complex-key", "defined-pointer-elem"}
 
 var commonBases = []string{"int", "string", "bool", "float64", "int64", "uint8", "int32", "uint64", "float32", "uint", "int8",
 	"int16", "uint16", "uint32", "uintptr"}
@@ -2180,6 +2246,9 @@ func (g *gen) structType(depth int) *Ty {
 	r := g.r
 	switch {
 	case r.Chance(1, 6):
+		if g.extOK && r.Chance(1, 4) {
+			return &Ty{K: "struct", N: fixedBase + 12}
+		}
 		return &Ty{K: "struct", N: fixedBase + []int{0, 1, 1, 3, 5, 6, 6, 7, 8, 11, 11}[r.Intn(11)]}
 	case g.want("unregistered-struct", 1, 5):
 		g.bad("unregistered-struct")
@@ -2227,6 +2296,10 @@ func (g *gen) anyType(depth int, ifaceOK bool) *Ty {
 		t = g.basicType()
 	case x >= 3 && x <= 6 && g.extOK:
 		// an array, or a registered defined container type
+		if r.Chance(1, 8) {
+			// a defined pointer type, as it is (behind a pointer the encoder refuses it)
+			return &Ty{K: "nptr", N: r.Intn(len(namedPtrs))}
+		}
 		if r.Chance(1, 2) {
 			t = &Ty{K: "array", N: r.Intn(4), E: g.elemType(depth - 1)}
 		} else {
@@ -2539,6 +2612,9 @@ func (g *gen) value(t *Ty, depth int) *V {
 	r := g.r
 	g.budget--
 	switch t.K {
+	case "nptr":
+		g.budget++
+		return g.value(namedPtrs[t.N].under, depth)
 	case "ncont":
 		g.budget++
 		return g.value(namedConts[t.N].under, depth)
@@ -2709,6 +2785,22 @@ func (g *gen) badLeaf() *Ty {
 	case "ptr-to-iface":
 		g.bad("ptr-to-iface")
 		return &Ty{K: "ptr", E: &Ty{K: "any"}}
+	case "defined-pointer-elem":
+		g.bad("defined-pointer-elem")
+		np := &Ty{K: "nptr", N: r.Intn(len(namedPtrs))}
+		switch r.Intn(6) {
+		case 0:
+			return &Ty{K: "slice", E: np}
+		case 1:
+			return &Ty{K: "map", Key: str, E: np}
+		case 2:
+			return &Ty{K: "ptr", E: np}
+		case 3:
+			return &Ty{K: "map", Key: np, E: &Ty{K: "base", B: "int"}}
+		case 4:
+			return &Ty{K: "slice", E: &Ty{K: "ptr", E: np}}
+		}
+		return &Ty{K: "array", N: 1 + r.Intn(2), E: np}
 	case "non-finite-key":
 		// a NaN / Inf map key has no JSON text: the encoder must refuse the map
 		return &Ty{K: "map", Key: []*Ty{{K: "base", B: "float64"}, {K: "base", B: "float32"}, {K: "named", N: 2}, {K: "named", N: 6}}[r.Intn(4)], E: g.basicType()}
